@@ -45,7 +45,7 @@ def gen(S, tier):
         if w.chance(0.15) and all(t and all(ch.isalnum() or ch in "-=." for ch in t) for t in toks):
             kind = "string"
         reqs.append({"fmt": k, "tokens": toks, "lenient": w.chance(0.3), "raw": kind, "notes": notes,
-                     "script": w.pick(["prog", "prog", "prog", "-c", "", "python -m tool", "/usr/bin/app"])})
+                     "script": w.pick(["prog", "prog", "prog", "-c", "", "python -m tool", "/usr/bin/app", "/opt/tool/__main__.py", "__main__.py"])})
     # a fraction of the histories is also compared, request by request, with a parse done in a process
     # of its own: a fresh interpreter state under another PYTHONHASHSEED (dsim.zygote peer)
     peer = S("config").chance(0.025)
